@@ -1,5 +1,6 @@
 import Vanguard.Lemmas.Outcome
 import Vanguard.Lemmas.RespHeaders
+import Vanguard.Lemmas.TargetHeaders
 import Vanguard.Lemmas.WellFramed
 import Vanguard.Lemmas.ReframeSplit
 /-!
@@ -183,5 +184,91 @@ theorem grpc_trailers_only_declares_nothing (rm : RespMeta) (k : Sink) (e : Resp
 /-- Non-vacuity: an error end with one application trailer. -/
 example : (addResponseHeaders .grpc { «end» := some { err := some { code := 5, msg := .text (s "gone"), details := 1 }, trailers := [(s "X-T", [[7]])] } } {}).2.hdr.values (s "Trailer") = [] := by
   decide +kernel
+
+
+/-! ### the content type of the response head -/
+
+/-- The content type each client protocol prescribes for a response: of the codec, or `application/json` for the
+    error body of a unary Connect client. -/
+def _root_.Vanguard.ClientForm.responseContentType (c : ClientForm) (rm : RespMeta) : Option Bytes :=
+  match c with
+  | .grpc => some (s "application/grpc+" ++ rm.codec)
+  | .grpcWeb => some (s "application/grpc-web+" ++ rm.codec)
+  | .connectStream => some (s "application/connect+" ++ rm.codec)
+  | .connectPost | .connectGet =>
+    match rm.end.bind (·.err) with
+    | some _ => some (s "application/json")
+    | none => some (s "application/" ++ rm.codec)
+  | .rest => none
+
+private theorem r1 : canonKey (s "Grpc-Encoding") ≠ canonKey (s "Content-Type") := by decide +kernel
+private theorem r2 : canonKey (s "Grpc-Accept-Encoding") ≠ canonKey (s "Content-Type") := by decide +kernel
+private theorem r3 : canonKey (s "Trailer") ≠ canonKey (s "Content-Type") := by decide +kernel
+private theorem r4 : canonKey (s "Connect-Content-Encoding") ≠ canonKey (s "Content-Type") := by decide +kernel
+private theorem r5 : canonKey (s "Connect-Accept-Encoding") ≠ canonKey (s "Content-Type") := by decide +kernel
+private theorem r6 : canonKey (s "Content-Encoding") ≠ canonKey (s "Content-Type") := by decide +kernel
+private theorem r7 : canonKey (s "Accept-Encoding") ≠ canonKey (s "Content-Type") := by decide +kernel
+
+/-- **The response head carries the content type of the client's own protocol**, once, whatever the handler
+    stored under that name - provided no trailer of an end that travels in the head is itself called
+    `Content-Type` (or `Trailer-…` to that effect). -/
+theorem client_content_type (c : ClientForm) (rm : RespMeta) (sink : Sink) (ct : Bytes)
+    (hct : c.responseContentType rm = some ct) (ha : EndAvoids rm.end (s "Content-Type")) :
+    (addResponseHeaders c rm sink).2.hdr.values (s "Content-Type") = [ct] := by
+  have hadd : ∀ (h : Hdr) (v : Bytes), (h.add (s "Trailer") v).values (s "Content-Type") = h.values (s "Content-Type") :=
+    fun h v => Hdr.values_add_ne h _ v _ r3
+  have hfadd : ∀ (ks : List Bytes) (h : Hdr),
+      (ks.foldl (fun acc x => Hdr.add acc (s "Trailer") x) h).values (s "Content-Type") = h.values (s "Content-Type") :=
+    fun ks h => foldl_add_values ks h _ _ r3
+  unfold addResponseHeaders
+  cases c <;> simp only [ClientForm.responseContentType, Option.some.injEq, reduceCtorEq] at hct <;> simp only
+  case grpc =>
+    subst hct
+    have hc : (ClientForm.grpc == ClientForm.grpc) = true := by decide
+    cases he : rm.end with
+    | none =>
+      simp only [hc, if_true, Option.isNone_none, Bool.and_self]
+      split <;> split <;> simp only [hadd, hfadd, setIf_values_ne _ _ _ _ _ r1, setIf_values_ne _ _ _ _ _ r2, Hdr.values_set_same]
+    | some e =>
+      have := foldl_setRaw_values id e.trailers (sink.hdr.set (s "Content-Type") (s "application/grpc+" ++ rm.codec)) (s "Content-Type")
+        (fun t ht => (ha e he t ht).1)
+      simp only [id] at this
+      simp only [hc, if_true, Option.isNone_some, Bool.and_false, Bool.false_eq_true, if_false, writeEndToHeaders, this, Hdr.values_set_same]
+  case grpcWeb =>
+    subst hct
+    have hc : (ClientForm.grpcWeb == ClientForm.grpc) = false := by decide
+    simp only [hc, Bool.false_and, Bool.false_eq_true, if_false]
+    cases he : rm.end with
+    | none => simp only [setIf_values_ne _ _ _ _ _ r1, setIf_values_ne _ _ _ _ _ r2, Hdr.values_set_same]
+    | some e =>
+      have := foldl_setRaw_values id e.trailers (sink.hdr.set (s "Content-Type") (s "application/grpc-web+" ++ rm.codec)) (s "Content-Type")
+        (fun t ht => (ha e he t ht).1)
+      simp only [id] at this
+      simp only [writeEndToHeaders, this, Hdr.values_set_same]
+  case connectStream =>
+    subst hct
+    simp only [setIf_values_ne _ _ _ _ _ r4, setIf_values_ne _ _ _ _ _ r5, Hdr.values_set_same]
+  case connectPost =>
+    cases he : rm.end with
+    | none =>
+      simp only [he, Option.bind_none, Option.some.injEq] at hct ⊢; subst hct
+      simp only [setIf_values_ne _ _ _ _ _ r7, setIf_values_ne _ _ _ _ _ r6, Hdr.values_set_same]
+    | some e =>
+      have := fun h => foldl_setRaw_values (fun t => s "Trailer-" ++ t) e.trailers h (s "Content-Type") (fun t ht => (ha e he t ht).2)
+      cases herr : e.err <;> simp only [he, Option.bind_some, herr, Option.some.injEq] at hct ⊢ <;> subst hct <;>
+        simp only [setIf_values_ne _ _ _ _ _ r7, this, setIf_values_ne _ _ _ _ _ r6, Hdr.values_set_same]
+  case connectGet =>
+    cases he : rm.end with
+    | none =>
+      simp only [he, Option.bind_none, Option.some.injEq] at hct ⊢; subst hct
+      simp only [setIf_values_ne _ _ _ _ _ r7, setIf_values_ne _ _ _ _ _ r6, Hdr.values_set_same]
+    | some e =>
+      have := fun h => foldl_setRaw_values (fun t => s "Trailer-" ++ t) e.trailers h (s "Content-Type") (fun t ht => (ha e he t ht).2)
+      cases herr : e.err <;> simp only [he, Option.bind_some, herr, Option.some.injEq] at hct ⊢ <;> subst hct <;>
+        simp only [setIf_values_ne _ _ _ _ _ r7, this, setIf_values_ne _ _ _ _ _ r6, Hdr.values_set_same]
+
+/-- Non-vacuity: the error response of a unary Connect client is JSON whatever the codec of the RPC. -/
+example : ClientForm.connectPost.responseContentType { codec := s "proto", «end» := some { err := some { code := 5, msg := .gen } } }
+    = some (s "application/json") := by decide +kernel
 
 end Vanguard.C03
